@@ -14,7 +14,7 @@ from harness.runner import run_property
 
 PROP = "C08"
 THEOREMS = ["Lbfgsb.C08.order_sorted", "Lbfgsb.C08.order_positive", "Lbfgsb.C08.order_nodup", "Lbfgsb.C08.gcp_in_box", "Lbfgsb.C08.gcp_on_projected_path",
-            "Lbfgsb.C08.gcp_first_local_min", "Lbfgsb.C08.gcp_model_le", "Lbfgsb.C08.gcp_model_lt", "Lbfgsb.C08.gcp_model_neg", "Lbfgsb.C08.minCtx_nopairs"]
+            "Lbfgsb.C08.gcp_first_local_min", "Lbfgsb.C08.gcp_model_le", "Lbfgsb.C08.gcp_model_lt", "Lbfgsb.C08.gcp_model_neg", "Lbfgsb.C08.minCtx_nopairs", "Lbfgsb.C08.middle_symm"]
 MODULES = ["LbfgsbVerif.Props.C08", "LbfgsbVerif.Props.C08Path", "LbfgsbVerif.Props.C08Min"]
 
 
@@ -83,6 +83,26 @@ def evaluate(case: Dict[str, Any]) -> Dict[str, Any]:
     skips = [r["skip"] for r in res if "skip" in r]
     out["prop"] = [r for r in res if "skip" not in r]
     out["tags"] += [f"tied_breakpoints={bool(case.get('tie'))}", f"all_moving_pinned_family={bool(case.get('pinned'))}", f"n={n}", f"pairs={min(inp['npairs'], 4)}", f"at_bound_outward={bool(np.any(((x == lb) & (g > 0)) | ((x == ub) & (g < 0))))}"] + [f"skip:{s}" for s in skips]
+    # ---- do the hypotheses of the theorem gcp_first_local_min (MinCtx) hold on this input? (reported in the evidence:
+    # the share of the explored inputs that the theorem speaks about) — B positive definite, and the floor
+    # eps*f2_org on f'' inactive for every direction met along the search
+    try:
+        Bd = dense_B(mats, n)
+        evs = np.linalg.eigvalsh(0.5 * (Bd + Bd.T))
+        with np.errstate(divide="ignore", invalid="ignore"):
+            tt = np.where(g < 0, (x - ub) / g, np.where(g > 0, (x - lb) / g, np.inf))
+        d0 = np.where(tt == 0, 0.0, -g)
+        f2org = float(mats.theta) * float(d0 @ d0)
+        dd, floor_active = d0.copy(), False
+        for ib in np.argsort(tt):
+            if not (tt[ib] > 0 and np.isfinite(tt[ib])):
+                continue
+            dd[ib] = 0.0
+            if dd.any() and float(dd @ Bd @ dd) < 1e-30 * f2org:
+                floor_active = True
+        out["tags"].append(f"theorem_hypotheses_MinCtx_hold={bool(evs[0] > 0 and not floor_active)}")
+    except Exception:
+        out["tags"].append("theorem_hypotheses_MinCtx_hold=unknown")
     # ---- Lean Float model of the routine
     if mats.use_factor:
         Minv = mats.invMfactors[0] @ mats.invMfactors[1]
